@@ -161,7 +161,7 @@ def chunks(lst, n):
     return [lst[i:i + k] for i in range(0, len(lst), k)] if lst else []
 
 
-def write_cfg(work, name, spec, invariants, constants=None, view=None, deadlock=False):
+def write_cfg(work, name, spec, invariants, constants=None, view=None, deadlock=False, properties=None):
     p = os.path.join(work, name + '.cfg')
     with open(p, 'w') as f:
         f.write('SPECIFICATION %s\n' % spec)
@@ -172,6 +172,10 @@ def write_cfg(work, name, spec, invariants, constants=None, view=None, deadlock=
         f.write('INVARIANTS\n')
         for i in invariants:
             f.write('  %s\n' % i)
+        if properties:
+            f.write('PROPERTIES\n')
+            for i in properties:
+                f.write('  %s\n' % i)
         if view:
             f.write('VIEW %s\n' % view)
         f.write('CHECK_DEADLOCK %s\n' % ('TRUE' if deadlock else 'FALSE'))
@@ -180,3 +184,19 @@ def write_cfg(work, name, spec, invariants, constants=None, view=None, deadlock=
 
 def tla_set(xs):
     return '{' + ', '.join(str(x) for x in xs) + '}'
+
+
+def run_host_binary(binpath, entries, workname, env=None, timeout=1800):
+    """Runs the host entries' jobs (as they are) through another build of the host TU (sanitizer / cstring variants).
+    Returns (trace records, returncode, stderr tail).  Does not touch the entries."""
+    work = vlib.scratch(workname)
+    base = os.path.join(work, 'x')
+    with open(base + '.desc', 'w') as f:
+        for e in entries:
+            f.write(e.desc)
+    _write_jobs(base + '.jobs', entries)
+    e2 = dict(os.environ)
+    e2.update(env or {})
+    r = subprocess.run([binpath, base + '.desc', base + '.jobs', base + '.out'], capture_output=True, text=True, timeout=timeout, env=e2)
+    recs = [x for x in vlib.read_ndjson_lenient(base + '.out') if 'id' in x]
+    return recs, r.returncode, (r.stderr or '')[-3000:]
